@@ -10,9 +10,9 @@ import (
 )
 
 func c19Main(r *hx.Run) {
-	depth := 5
+	depth := 8
 	if r.Thorough() {
-		depth = 7
+		depth = 11
 	}
 	ms := []hx.GModel{{Name: "avahi", Build: mdnsscen.Build(), MaxDepth: depth, MaxStates: 300000}}
 	var scens []hx.Scenario
